@@ -65,6 +65,16 @@ fn main() {
         let hays = vec!["aab bbb abb", "aabbb", "xay xby", "ab", "xyxy", "yxy", "Ab aB AB", "zz", "abab", "b"];
         let qs = vec![(0, 0, 0), (0, 1, 0), (1, 2, 0), (1, 3, 1), (2, 4, 1), (2, 5, 0), (3, 6, 0), (3, 7, 0), (0, 8, 2), (1, 9, 0)];
         (specs.into_iter().map(|(a, b)| (a.to_string(), b.to_string())).collect(), hays.into_iter().map(|s| s.to_string()).collect(), qs)
+    } else if seed % 1000 == 994 {
+        // fixed "colliding code points" scenario: case-insensitive back-references and classes
+        // over haystacks whose characters are congruent modulo 64, 128 and 256 (a / \u{e1} /
+        // \u{161} / \u{461} and their capitals; i / \u{e9}): three threads hammer the same slots
+        // of any small direct-mapped table keyed by code point (memo of case folding, of class
+        // membership) with different keys at the same time
+        let specs = vec![("(.)\\1", "i"), ("(\\w)\\1", "iu"), ("[a\u{e1}\u{161}]+", "i")];
+        let hays = vec!["aAaAaAaA", "\u{e1}\u{c1}\u{e1}\u{c1}\u{e1}\u{c1}", "\u{161}\u{160}\u{161}\u{160}", "\u{461}\u{460}\u{461}\u{460}", "iIiI\u{e9}\u{c9}\u{e9}\u{c9}", "a\u{c1}\u{161}A"];
+        let qs = vec![(0, 0, 0), (0, 1, 0), (0, 2, 0), (1, 3, 0), (1, 4, 0), (2, 5, 0), (0, 4, 0), (1, 0, 0), (1, 1, 0)];
+        (specs.into_iter().map(|(a, b)| (a.to_string(), b.to_string())).collect(), hays.into_iter().map(|s| s.to_string()).collect(), qs)
     } else if seed % 1000 == 996 {
         // fixed "first use" scenario: two threads run their FIRST search on the same freshly
         // compiled object at the same time (lazily built prefilters or tables, racy
